@@ -24,7 +24,7 @@ func runC07(w *World) {
 	}
 	hc := newHistChecker(w, inst, newModel(), "C07")
 	hc.exact = false
-	w.stepHooks = append(w.stepHooks, hc.stepHook, lockDiscipline(w, inst, "C07"))
+	w.stepHooks = append(w.stepHooks, hc.stepHook, lockDiscipline(w, inst, "C07"), auditHook(w, func() *Inst { return n.inst }, "C07"))
 
 	nc := 2 + w.knob("clients", 3)
 	total := []int{10, 20, 30, 40}[w.knob("total", 4)]
